@@ -332,21 +332,19 @@ impl<'s, 'a, 'vm> ser::Serializer for &'s mut Serializer<'a, 'vm> {
         self.to_value(v)
     }
 
-    // An absent optional is represented as the JSON `null`.
+    // `None` is the first constructor of gluon's `Option`
     fn serialize_none(self) -> Result<Self::Ok> {
         self.serialize_unit()
     }
 
-    // A present optional is represented as just the contained value. Note that
-    // this is a lossy representation. For example the values `Some(())` and
-    // `None` both serialize as just `null`. Unfortunately this is typically
-    // what people expect when working with JSON. Other formats are encouraged
-    // to behave more intelligently if possible.
+    // `Some` is the second constructor of gluon's `Option` and holds the value as its only
+    // field (the same value that `Option<T>: Pushable` creates)
     fn serialize_some<T>(self, value: &T) -> Result<Self::Ok>
     where
         T: ?Sized + Serialize,
     {
-        value.serialize(self)
+        value.serialize(&mut *self)?;
+        self.alloc(1, 1)
     }
 
     fn serialize_unit(self) -> Result<Self::Ok> {
